@@ -22,8 +22,8 @@ func c15(c *core.Ctx) map[string]interface{} {
 	r15f1X(c)
 	r15opcX(c)
 	r15generate(c)
-	r15check(c)
-	r15auts(c)
+	r15checkX(c)
+	r15autsX(c)
 	r15pure(c)
 	return nil
 }
